@@ -4,7 +4,10 @@ from . import instr_targets as I
 LEVEL = 'proof'
 TAGS = ('C18', 'defined', 'idle')
 TRUSTED = I.COMMON_TRUSTED
-ASSUMPTIONS = ['a step produces fewer lines than the ring buffers hold']
+ASSUMPTIONS = ['a step produces fewer lines than the ring buffers hold',
+               'decoration is uniform: either every state function of a chart carries @spy_on or none does (a chart whose '
+               'start state is decorated while its current state is not is outside this claim: there the REFLECTION probe '
+               'of the trace wrapper moves temp.fun, observed natively on the unmodified tree, see DESIGN 11.7)']
 EXPLANATION = 'A relational (two-run) property reduced to a per-wrapper transparency contract: the wrapped callable runs exactly once with the same arguments, its result is returned unchanged, only instrumentation fields are written, extra handler invocations use REFLECTION_SIGNAL only on handlers that answer it themselves, no definedness failure on any host.  Wrappers: _spy_on on all four hosts and all seven event kinds, the dispatch and start_at stacks of the instrumented hosts, the live-output wrappers, ActiveObject.start_at for decorated and undecorated start states.  A stack of transparent wrappers around the core is observationally the core on the non-instrumentation state.'
 MIN_OBLIGATIONS = 10
 
